@@ -11,7 +11,8 @@ From J5V.lib Require Import Text Outcome.
 From J5V.gen Require SetExtGen PanicGen WalkerGen SourcewalkGen WalkSchemaGen.
 From J5V.model Require Import Entity.
 From J5V.model Require Import BclLexer BclParser CmpbFields CmpbDecls CmpbFront CmpbWalker CmpbPackage CmpbEntity CmpbWalk CmpbWalkFile.
-From J5V.proofs Require Import BclPosProofs BclBytesProofs CmpbFieldsProofs CmpbPanicProofs CmpbDeclsProofs CmpbSchemaProofs CmpbFrontProofs CmpbPackageProofs CmpbEntityProofs CmpbWalkProofs.
+From J5V.proofs Require Import BclPosProofs BclBytesProofs CmpbFieldsProofs CmpbPanicProofs CmpbDeclsProofs CmpbSchemaProofs CmpbFrontProofs CmpbPackageProofs CmpbEntityProofs CmpbWalkProofs CmpbLinkProofs.
+From J5V.proofs Require J5sWitnessProofs.
 Import ListNotations.
 Local Open Scope string_scope.
 
@@ -491,3 +492,27 @@ Example C07_example_front_end_j5s :
   /\ front_end (j5s_walk R) true (c07_src ["objec Foo {"; "}"; ""]) = Ok (FEErrors SWalk [((0, 0)%Z, (0, 4)%Z)])
   /\ front_end (j5s_walk R) true (c07_src ["x = #"; ""]) = Ok (FEErrors SParse [((0, 4)%Z, (0, 4)%Z)]).
 Proof. cbv zeta. repeat split; vm_compute; reflexivity. Qed.
+
+(* ---- "is accepted AND LINKS", over a model of the link step (round 3).  The converter-core theorems above use one
+   predicate for linking (an extension's file is imported).  The cmpa family's model (J5sConvert.compile_package: convert
+   every file, the linker's symbol table, resolution of every type name, link of the imported generated files) is the
+   link phase proper; over it, every package of a valid bundle (C02's validity = the language of harness/j5sgen, whose
+   texts go through this property's walker and compile streams) converts, defines no symbol twice and links.
+   The two models are not connected by proof: the declarations of this file's front end (abstract fields) are not
+   J5sAst terms. *)
+Theorem C07_valid_bundle_accepted_and_links : forall bd pkg,
+  J5sCorr.valid bd = true -> (exists f, In f bd /\ J5sWalk.bfile_pkg f = pkg) ->
+  exists fs D, J5sConvert.convert_package Strcase.to_snake Strcase.to_camel Strcase.to_screaming_snake bd pkg = Ok fs
+               /\ J5sLink.nodup_str (J5sConvert.package_symbols bd pkg fs) = true
+               /\ J5sLink.link_files fs = Ok D
+               /\ J5sCorr.compile bd pkg = Ok D.
+Proof. exact valid_bundle_accepted_and_links. Qed.
+Print Assumptions C07_valid_bundle_accepted_and_links.
+
+Example C07_example_links :
+  J5sCorr.valid J5sWitnessProofs.w_captured = true
+  /\ exists fs D, J5sConvert.convert_package Strcase.to_snake Strcase.to_camel Strcase.to_screaming_snake J5sWitnessProofs.w_captured (J5sAst.b "foo.v1") = Ok fs
+                  /\ J5sLink.link_files fs = Ok D /\ D <> [].
+Proof.
+  split; [vm_compute; reflexivity|]. eexists. eexists. split; [vm_compute; reflexivity|]. split; [vm_compute; reflexivity|discriminate].
+Qed.
